@@ -251,15 +251,32 @@ class Run:
                 if rc3 != 0:
                     self.ties.append({"tie": "leanchecker", "what": out3[-400:]})
 
-            # model driver
-            rc, out = sh(["lake", "build", "driver"], cwd=LEAN, timeout=3000)
-            self.log("lake_driver.log", out)
-            exe = os.path.join(LEAN, ".lake", "build", "bin", "driver")
-            if rc != 0 or not os.path.exists(exe):
-                self.ties.append({"tie": "model", "what": "the executable model does not build against the regenerated facts: " + out[-400:]})
+            # model driver(s): one executable per model, so that a model that no longer compiles
+            # against the regenerated facts only affects the checks that use it
+            models = cfg.get("models")
+            if models:
+                ok_all = True
+                for mname in models:
+                    tgt = "driver_" + mname.replace("-", "_")
+                    rc, out = sh(["lake", "build", tgt], cwd=LEAN, timeout=3000)
+                    self.log("lake_%s.log" % tgt, out)
+                    exe = os.path.join(LEAN, ".lake", "build", "bin", tgt)
+                    if rc != 0 or not os.path.exists(exe):
+                        ok_all = False
+                        self.ties.append({"tie": "model", "what": "the executable model %s does not build against the regenerated facts: %s" % (mname, out[-400:])})
+                    else:
+                        shutil.copy2(exe, os.path.join(self.rundir, "driver_" + mname))
+                if ok_all:
+                    self.driver = os.path.join(self.rundir, "driver")
             else:
-                self.driver = os.path.join(self.rundir, "driver")
-                shutil.copy2(exe, self.driver)
+                rc, out = sh(["lake", "build", "driver"], cwd=LEAN, timeout=3000)
+                self.log("lake_driver.log", out)
+                exe = os.path.join(LEAN, ".lake", "build", "bin", "driver")
+                if rc != 0 or not os.path.exists(exe):
+                    self.ties.append({"tie": "model", "what": "the executable model does not build against the regenerated facts: " + out[-400:]})
+                else:
+                    self.driver = os.path.join(self.rundir, "driver")
+                    shutil.copy2(exe, self.driver)
         finally:
             fcntl.flock(lock, fcntl.LOCK_UN)
             lock.close()
